@@ -128,3 +128,12 @@ pub mod context;
 mod group;
 mod nsec;
 mod utilities;
+
+/// Verification hook (H3): the private denial-of-existence helpers,
+/// re-exported for the model-based conformance harness. Compiled only with
+/// `--cfg domain_verif`.
+#[cfg(domain_verif)]
+#[allow(missing_docs)]
+pub mod verif {
+    pub use super::nsec::*;
+}
